@@ -22,8 +22,8 @@ SPEC = {
             ob('harness_count', tier='thorough', timeout=900), ob('harness_count', defines=L2, bounds=B2, tier='quick'),
             ob('harness_split', defines=L2, bounds=B2, tier='thorough', timeout=3600), ob('harness_split', defines=L1, bounds=B1, tier='quick', timeout=600),
             ob('harness_replace_char'),
-            ob('harness_replace', tier='thorough', timeout=1800), ob('harness_replace', defines=L2, bounds=B2, tier='quick'),
-            ob('harness_replace_twice', defines=L2, bounds=B2, tier='thorough', timeout=3600), ob('harness_replace_twice', defines=L1, bounds=B1, tier='quick', timeout=600),
+            ob('harness_replace', tier='thorough', timeout=1800, unwind=14), ob('harness_replace', defines=L2, bounds=B2, tier='quick'),
+            ob('harness_replace_twice', defines=L2, bounds=B2, tier='thorough', timeout=3600, unwind=14), ob('harness_replace_twice', defines=L1, bounds=B1, tier='quick', timeout=600),
             ob('harness_lower'),
             ob('harness_printable', unwind=16, defines=L2, bounds=B2, tier='thorough', timeout=3600), ob('harness_printable', unwind=16, defines=L1, bounds=B1, tier='quick', timeout=600),
             ob('harness_substring'), ob('harness_find_at'),
@@ -36,9 +36,10 @@ SPEC = {
             ob('harness_from_int', unwind=20, bounds='all 64-bit values, 6 integer overloads'),
             ob('harness_from_misc', unwind=20, defines=L1, bounds=B1, timeout=600), ob('harness_from_misc', unwind=20, defines=L2, bounds=B2, tier='thorough', timeout=3600),
         ] + [ob('harness_hex', unwind=26, defines=['-DHEXKIND=%d' % k], bounds='all 64-bit values, overload #%d of 12' % k) for k in range(12)] + [
-            ob('harness_binary', unwind=40, bounds='blocks <= 3 bytes', tier='thorough', timeout=3600), ob('harness_binary', unwind=40, defines=['-DBINMAX=1'], bounds='blocks <= 1 byte', tier='thorough', timeout=3600),
+            # harness_binary (StringFromBinary*): symex explodes (15M steps, no verdict in 52 min / 27 GB) - not claimed, see DESIGN.md
+
             ob('harness_masked', unwind=20, bounds='byteCount in {1,2}, all values and masks', tier='thorough', timeout=3600), ob('harness_masked', unwind=12, defines=['-DMASKED_ONE'], bounds='byteCount 1, all values and masks', timeout=600),
-            ob('harness_masked', unwind=70, defines=['-DMASKED_FULL', '-DENV_MALLOC_CAP=128'], bounds='all byteCount values incl. > sizeof(long), all values and masks', tier='thorough', timeout=1800),
+            # harness_masked with byteCount up to sizeof(long): out of memory at 27 GB - not claimed
             ob('harness_ordinal', unwind=12, bounds='all 32-bit values'), ob('harness_format_sd', unwind=16),
         ],
     }],
